@@ -236,9 +236,9 @@ impl Deserializable for StackOutputs {
         let count = source.read_u32()?.try_into().expect("u32 must fit in a usize");
         let overflow_addrs = source.read_many::<u64>(count)?;
 
-        Ok(Self {
-            stack,
-            overflow_addrs,
-        })
+        // the bytes are untrusted: enforce the same invariants as the constructor (canonical field
+        // elements, at least STACK_TOP_SIZE elements, consistent number of overflow addresses)
+        Self::new(stack, overflow_addrs)
+            .map_err(|err| DeserializationError::InvalidValue(format!("{err}")))
     }
 }
